@@ -418,6 +418,111 @@ theorem wfUtf16_utf16 (cps : List Nat) (h : ∀ cp ∈ cps, isScalar cp = true) 
       conv => lhs; unfold wfUtf16
       rw [if_neg (by omega), if_pos ⟨a1, a2, a3, a4⟩, ihr]
 
+theorem wf_units16 (us : List Nat) (h : wfUtf16 us = true) : units16 us = true := by
+  fun_induction wfUtf16 us
+  case case1 => rfl
+  case case2 u =>
+    simp only [Bool.or_eq_true, Bool.and_eq_true, decide_eq_true_eq] at h
+    simp [units16]; omega
+  case case3 u v r hu ih =>
+    have := ih h
+    simp only [units16, List.all_cons, Bool.and_eq_true, decide_eq_true_eq] at this ⊢
+    exact ⟨by omega, this⟩
+  case case4 u v r hu hp ih =>
+    have := ih h
+    simp only [units16, List.all_cons, Bool.and_eq_true, decide_eq_true_eq] at this ⊢
+    exact ⟨by omega, by omega, this⟩
+  case case5 => cases h
+
+/-- the UTF-8 form of a scalar value is well formed, in front of well-formed text -/
+theorem valid_enc (cp : Nat) (h : isScalar cp = true) (rest : Bytes) :
+    validUtf8 (utf8OfUnits.enc cp ++ rest) = validUtf8 rest := by
+  have hs := (isScalar_iff cp).mp h
+  unfold utf8OfUnits.enc
+  split
+  · simp only [List.cons_append, List.nil_append]
+    conv => lhs; unfold validUtf8
+    simp only [byteOf_toNat]
+    rw [if_pos (by omega)]
+  · split
+    · simp only [List.cons_append, List.nil_append]
+      conv => lhs; unfold validUtf8
+      simp only [byteOf_toNat]
+      have e1 : (0xC0 + cp / 64) % 256 = 0xC0 + cp / 64 := by omega
+      have e2 : (0x80 + cp % 64) % 256 = 0x80 + cp % 64 := by omega
+      rw [if_neg (by omega), if_pos (by omega)]
+      simp only [e2]
+      simp
+      intro _; omega
+    · split
+      · simp only [List.cons_append, List.nil_append]
+        conv => lhs; unfold validUtf8
+        simp only [byteOf_toNat]
+        have e1 : (0xE0 + cp / 4096) % 256 = 0xE0 + cp / 4096 := by omega
+        have e2 : (0x80 + cp / 64 % 64) % 256 = 0x80 + cp / 64 % 64 := by omega
+        have e3 : (0x80 + cp % 64) % 256 = 0x80 + cp % 64 := by omega
+        rw [if_neg (by omega), if_neg (by omega), if_pos (by omega)]
+        simp only [e1, e2, e3]
+        simp
+        intro _
+        refine ⟨⟨?_, ?_⟩, ?_⟩
+        · split <;> omega
+        · split <;> omega
+        · omega
+      · simp only [List.cons_append, List.nil_append]
+        conv => lhs; unfold validUtf8
+        simp only [byteOf_toNat]
+        have e1 : (0xF0 + cp / 262144) % 256 = 0xF0 + cp / 262144 := by omega
+        have e2 : (0x80 + cp / 4096 % 64) % 256 = 0x80 + cp / 4096 % 64 := by omega
+        have e3 : (0x80 + cp / 64 % 64) % 256 = 0x80 + cp / 64 % 64 := by omega
+        have e4 : (0x80 + cp % 64) % 256 = 0x80 + cp % 64 := by omega
+        rw [if_neg (by omega), if_neg (by omega), if_neg (by omega), if_pos (by omega)]
+        simp only [e1, e2, e3, e4]
+        simp
+        intro _
+        refine ⟨⟨⟨?_, ?_⟩, ?_⟩, ?_⟩
+        · split <;> omega
+        · split <;> omega
+        · omega
+        · omega
+
+
+theorem valid_utf8OfScalars (cps : List Nat) (h : ∀ cp ∈ cps, isScalar cp = true) : validUtf8 (utf8OfScalars cps) = true := by
+  induction cps with
+  | nil => rfl
+  | cons cp r ih =>
+    have : utf8OfScalars (cp :: r) = utf8OfUnits.enc cp ++ utf8OfScalars r := by simp [utf8OfScalars]
+    rw [this, valid_enc cp (h cp (by simp)), ih (fun x hx => h x (by simp [hx]))]
+
+/-- well-formed UTF-16 denotes Unicode scalar values only -/
+theorem scalars_of_wf (us : List Nat) (h : wfUtf16 us = true) : ∀ cp ∈ scalarsOfUnits us, isScalar cp = true := by
+  fun_induction wfUtf16 us
+  case case1 => intro cp hc; cases hc
+  case case2 u =>
+    simp only [Bool.or_eq_true, Bool.and_eq_true, decide_eq_true_eq] at h
+    intro cp hc
+    simp [scalarsOfUnits] at hc; subst hc
+    exact (isScalar_iff _).mpr (by omega)
+  case case3 u v r hu ih =>
+    rw [scalarsOfUnits_cons u (by omega)]
+    intro cp hc
+    rcases List.mem_cons.mp hc with rfl | hc
+    · exact (isScalar_iff _).mpr (by omega)
+    · exact ih h cp hc
+  case case4 u v r hu hp ih =>
+    conv => enter [cp, 1]; unfold scalarsOfUnits
+    rw [if_pos hp]
+    intro cp hc
+    rcases List.mem_cons.mp hc with h0 | hc
+    · exact (isScalar_iff _).mpr (by omega)
+    · exact ih h cp hc
+  case case5 => cases h
+
+/-- the reader-side encoder turns well-formed UTF-16 into well-formed UTF-8 -/
+theorem valid_utf8OfUnits (us : List Nat) (h : wfUtf16 us = true) : validUtf8 (utf8OfUnits us) = true := by
+  rw [utf8OfUnits_eq]
+  exact valid_utf8OfScalars _ (scalars_of_wf us h)
+
 /-- the `us` of `rendersTag`: a high surrogate cut off from its partner at the end is dropped -/
 def stripHigh (units : List Nat) : List Nat :=
   match units.getLast? with
